@@ -476,6 +476,42 @@ func progMachineRejectedStepLeavesTraces() *LazyProgram {
 	}
 }
 
+// progRejectedAttemptsDecideTheSite: two failure sites, and which one is reached depends on what rejected attempts
+// left behind - a Custom generator counts its attempts (a connection opened per attempt), the property fails at
+// site A when more than one attempt was needed and at site B when the value is small. Cutting the rejected
+// attempts out of a recording (pruning) turns an A-failure into a B-failure or into a passing case.
+func progRejectedAttemptsDecideTheSite() *LazyProgram {
+	return &LazyProgram{
+		Name: "rejected-attempts-decide-the-site",
+		Body: func(t *rapid.T, e *Env) {
+			attempts := 0
+			g := rapid.Custom(func(t *rapid.T) int {
+				attempts++
+				v := rapid.IntRange(0, 63).Draw(t, "v")
+				if v%4 == 3 {
+					t.Skip("rejected attempt")
+				}
+				return v
+			})
+			x := g.Draw(t, "x")
+			y := rapid.IntRange(0, 63).Draw(t, "y")
+			e.cur.Draws = fmt.Sprintf("x=%d y=%d attempts=%d", x, y, attempts)
+			e.Do(t, "body", e.cur.Draws)
+		},
+		Base: func(ctx, d string) Beh {
+			var x, y, a int
+			fmt.Sscanf(d, "x=%d y=%d attempts=%d", &x, &y, &a)
+			if a >= 2 && y >= 8 {
+				return BFatalA
+			}
+			if x < 10 && y >= 40 {
+				return BFatalB
+			}
+			return BPass
+		},
+	}
+}
+
 // progCustomCleanup: a Custom generator that registers a cleanup on its inner T and decides there; the body decides too.
 func progCustomCleanup() *LazyProgram {
 	return &LazyProgram{
